@@ -143,8 +143,15 @@ func (sd *SpecAnalyser) AnalyseDefinitions() {
 		alreadyReferenced[k] = true
 	}
 	location := DifferenceLocation{Node: &Node{Field: "Spec Definitions"}}
-	for name1, sch := range sd.Definitions1 {
-		schema1 := sch
+	// in a stable order: definitions compared here share one root, and a definition they refer to
+	// is compared under the first of them
+	names1 := make([]string, 0, len(sd.Definitions1))
+	for name1 := range sd.Definitions1 {
+		names1 = append(names1, name1)
+	}
+	sort.Strings(names1)
+	for _, name1 := range names1 {
+		schema1 := sd.Definitions1[name1]
 		childLocation := location.AddNode(&Node{Field: name1})
 		if schema2, ok := sd.Definitions2[name1]; ok {
 			// a definition that is referenced has been compared where it is used
@@ -729,14 +736,14 @@ func (sd *SpecAnalyser) compareSchema(location DifferenceLocation, schema1, sche
 	}
 
 	if isRefType(schema1) {
-		// a $ref is not followed again while it is being compared further up the same path (circular
-		// definitions); sibling properties are compared each in their own right
+		// a definition is compared once under a given root (circular definitions end here, and the
+		// work stays linear in the number of definitions); properties which refer to different
+		// definitions are compared each in their own right
 		key := schemaLocationKey(location) + "|" + schema1.Ref.String()
 		if _, ok := sd.schemasCompared[key]; ok {
 			return
 		}
 		sd.schemasCompared[key] = struct{}{}
-		defer delete(sd.schemasCompared, key)
 		schema1, _ = sd.schemaFromRef(getRef(schema1), &sd.Definitions1)
 	}
 
